@@ -110,6 +110,18 @@ impl Src {
             overrun: 0,
         }
     }
+    /// Inverse of `from_bytes`: the byte string from which `from_bytes` reproduces exactly the
+    /// draws made so far (seed corpus of the coverage-guided fuzz targets).
+    pub fn to_bytes(&self) -> Vec<u8> {
+        let mut out = vec![];
+        for (v, max) in self.tape[..self.pos.min(self.tape.len())].iter() {
+            let nbytes = ((64 - max.leading_zeros() as usize) + 7) / 8;
+            for i in 0..nbytes {
+                out.push((*v >> (8 * i)) as u8);
+            }
+        }
+        out
+    }
     /// The values actually used by the case (after clamping), for saving.
     pub fn used(&self) -> Vec<u64> {
         self.tape[..self.pos.min(self.tape.len())]
